@@ -17,7 +17,7 @@ def run(tier):
                           mc_props=PROPS, mc_invs=INVS, mc_depth_quick=6, mc_depth_thorough=8, sim_depth=16,
                           profile={"idreq": 30, "pres": 22, "child": 6, "set": 6, "batt": 4, "garbage": 2, "invalid": 3,
                                    "req": 2, "wake": 3, "fwcfg": 1, "fwreq": 1},
-                          gen_opts=lambda i: {"prefix": None, "tick_p": 0.08, "restart_p": 0.10, "no_callback": i % 3 == 1},
+                          gen_opts=lambda i: {"prefix": None, "tick_p": 0.08, "restart_p": 0.10, "no_callback": i % 3 == 1, "mqtt": i % 4 == 2},
                           n_quick=90, nontrivial=_id_event)
     return chk.run()
 
